@@ -275,8 +275,24 @@ def check(repo: Repo, R) -> None:
             ok = parts == {"inst", "port"}
             R.check(ok, rule2, key_of(fi, "portref-sort-total"), fi.at(c), f"`{ast.unparse(c)[:90]}` orders a hash-ordered set of port references; the key distinguishes every pair of them (instance name: {'inst' in parts}, port name: {'port' in parts})",
                     why="two ports of one instance fed by the same bundle tie under the key; `sorted` is stable, so their relative order is the set's hash order again and the connection order in the package changes between processes")
-    if tot < 1:
-        raise AnalysisError("anchor-vanished: no sort over a set of port references found")
+    # wherever port references are ordered by a key, the key tells any two of them apart: (instance name, port name)
+    for fi in repo.funcs_in("hdl21/elab/"):
+        for c in au.calls_in(fi.node, nested=True):
+            if not (isinstance(c.func, ast.Name) and c.func.id in ("sorted", "min", "max") and c.args):
+                continue
+            key = {x.arg: x.value for x in c.keywords}.get("key")
+            if not (isinstance(key, ast.Lambda) and len(key.args.args) == 1):
+                continue
+            v = key.args.args[0].arg
+            txt = ast.unparse(key.body)
+            if f"{v}.inst.name" not in txt:
+                continue
+            tot += 1
+            ok = f"{v}.portname" in txt
+            R.check(ok, rule2, key_of(fi, "portref-key-total::" + ast.unparse(c.args[0])[:30]), fi.at(c), f"`{ast.unparse(c)[:90]}` orders port references by a key that distinguishes any two of them (instance name and port name): {ok}",
+                    why="several ports of one instance tie under the key; which of them comes first is the order of the collection, which is built by iterating address-hashed sets: implicit net names change with the hash seed")
+    if tot < 2:
+        raise AnalysisError("anchor-vanished: fewer than two sorts over port references found")
     # ---- no hash-ordered local set leaks its order
     rule4 = "C12.4-no-local-set-order-leaks"
     pos = local_set_iterations(ast.parse(_POSITIVE_SAMPLE).body[0])
